@@ -11,6 +11,7 @@ from .loop import LoopExpression
 from .path import Location
 from .path import Path
 from .path import Segments
+from .path import quote_identifier
 from .primitive import Identifier
 from .primitive import Literal
 from .primitive import Nil
@@ -38,6 +39,7 @@ __all__ = (
     "Path",
     "PositionalArgument",
     "Segments",
+    "quote_identifier",
     "StringLiteral",
     "TernaryFilteredExpression",
     "tokenize",
